@@ -248,7 +248,7 @@ def correspondence(ctx, model_ok=True):
     rng = ctx.rng.fork("c08")
     failures = []
     broken = []
-    n_gen = 9000 if ctx.thorough else 720
+    n_gen = 9000 if ctx.thorough else 5000
     gen = progs.generated(rng, PROFILES, n_gen)
     scripts = progs.corpus_scripts()
     allp = [(n, s, m) for n, s, m, _ in gen] + scripts
